@@ -90,6 +90,11 @@ def run(ctx, wrapper, table, gen_file, check_fn, imports, what_model, what_prop,
                     found = report(ctx, st, pf, what_model, what_prop)
         if not found:
             ctx.violations.append(broken)
+        else:
+            try:
+                os.remove(broken.replay)
+            except OSError:
+                pass
         return
     mm = ctx.stream(st["name"], st["harness"], st["driver"])
     if mm is None:
